@@ -116,6 +116,10 @@ def observables(a):
     # periodic sphere around atom 0: number of copies of each element inside
     s = AtomSelection.from_sphere(a, a.get_positions()[0], 4.03, periodic=True)
     out["sphere"] = sorted(a[int(i)].symbol for i in s.indices)
+    # periodic box (absolute coordinates) centred on atom 0: copies of each element inside; only meaningful for transformations that keep the axes
+    c0 = a.get_positions()[0]
+    sb = AtomSelection.from_box(a, c0 - 2.02, c0 + 2.02, periodic=True)
+    out["box"] = sorted(a[int(i)].symbol for i in sb.indices)
     return out
 
 
@@ -178,7 +182,8 @@ def judge(ob, ov, name, info, mult):
     probs = []
     if mult is None:
         # the sphere selection is centred on atom 0: skip it for permutations (a different atom)
-        keys = [k for k in ob if not (name == "permute" and k == "sphere") and k != "all_finite" and not k.startswith("_")]
+        keys = [k for k in ob if not (name == "permute" and k in ("sphere", "box")) and not (name.startswith("rotate") and k == "box")
+                and k != "all_finite" and not k.startswith("_")]
         if "_pair_table" in ob and "_pair_table" in ov and name in ("permute", "translate", "rotate-exact", "lattice-shifts"):
             relab = (lambda i: info["perm"].index(i)) if name == "permute" else (lambda i: i)
             for (i_, j_), dv in ob["_pair_table"].items():
@@ -253,7 +258,7 @@ def run(ctx):
             continue
         case0 = dict(L=[list(r) for r in L], pos=[list(p) for p in pos], syms=syms)
         variants = []
-        tr = np.array([rng.randint(-40, 40) / 8.0 for _ in range(3)])
+        tr = np.array([rng.randint(-40, 40) / 8.0 for _ in range(3)]) * rng.choice([1, 1, 4, 9])       # also several lattice lengths away
         variants.append(("translate", dict(t=tr.tolist()), None))
         Q = SIGNPERM[rng.randrange(len(SIGNPERM))]
         variants.append(("rotate-exact", dict(Q=Q.tolist()), None))
